@@ -126,7 +126,14 @@ def run(ctx: core.Check):
         child = wiregen.base()
         child["SUIT_Envelope_Tagged"]["suit-manifest"]["suit-manifest-sequence-number"] = seqc
         child["SUIT_Envelope_Tagged"]["suit-manifest"]["suit-common"]["suit-components"] = [["M", kk % 7, 4096 * (kk % 5)]]
+        # ONE name under two namespaces (and as a plain vendor string) in one process: an identifier is a function of the pair
+        def ids(ns, name):
+            return [{"suit-directive-override-parameters": {
+                "suit-parameter-vendor-identifier": {"RFC4122_UUID": ns if kk % 2 else name},
+                "suit-parameter-class-identifier": {"RFC4122_UUID": {"namespace": ns, "name": name}}}}]
+        child["SUIT_Envelope_Tagged"]["suit-manifest"]["suit-common"]["suit-shared-sequence"] = ids("example.org", "app_core")
         parent = wiregen.base()
+        parent["SUIT_Envelope_Tagged"]["suit-manifest"]["suit-common"]["suit-shared-sequence"] = ids("nordicsemi.com", "app_core")
         parent["SUIT_Envelope_Tagged"]["suit-manifest"]["suit-manifest-sequence-number"] = kk
         parent["SUIT_Envelope_Tagged"]["suit-integrated-dependencies"] = {"#dep.suit": child}
         return parent, child
